@@ -26,6 +26,7 @@ pub mod c15;
 pub mod c17;
 pub mod c19;
 pub mod c20;
+pub mod genpool;
 
 pub fn worker(prop: &str, case: &Value) -> Value {
     match prop {
